@@ -26,7 +26,6 @@ const (
 	docExactOrNone = iota // "must overlap entirely or not at all" / cipher.AEAD: dst = in[:0] or no overlap; the function checks
 	docNone               // "must not overlap"; the function checks (nacl)
 	docExactNoCheck       // "must overlap entirely or not at all", no check promised or made (salsa low level): only exact/disjoint are presented
-	docNoneObserved       // "must not overlap", the function itself neither promises nor makes a complete check (box.SealAnonymous): forbidden overlaps are observed, not judged
 )
 
 // c53inst is one prepared function instance for a payload length.
@@ -256,7 +255,7 @@ func c53Functions() []c53fn {
 				return &c53inst{in: in, want: pt, wantOK: true, call: call}, ""
 			}})
 	}
-	fns = append(fns, c53fn{name: "box.SealAnonymous", doc: docNoneObserved, lens: c53Lens,
+	fns = append(fns, c53fn{name: "box.SealAnonymous", doc: docNone, lens: c53Lens,
 		mk: func(r *rand.Rand, n int, _ []byte) (*c53inst, string) {
 			k := mkKeys(r)
 			in := mon.Bytes(r, n)
@@ -320,7 +319,7 @@ func TestC53(t *testing.T) {
 	defer m.Done()
 	m.Rule("exhaustive over the stated space: for every function (chacha20.XORKeyStream, salsa20.XORKeyStream 8/24-byte nonce, xts.Encrypt/Decrypt, cipher.AEAD Seal/Open for chacha and xchacha on every path, secretbox/box(+AfterPrecomputation, Anonymous)/sign Seal|Sign and Open; salsa/salsa.XORKeyStream for exact/disjoint only) and every length in {1,15,16,17,63,64,65,200,1000} (xts: {16,32,48,64,80,208,1008}) the input sits at a fixed place of one guard-bordered arena and the output window starts at every offset -64..+64 from it, with dst prefix/capacity variations (empty prefix exact capacity, 5-byte prefix, spare capacity, capacity one byte short; stream functions: out longer than in where documented); AEAD additionally with the additional data placed at every offset -64..+64 from the output window. Expectation from the documentation, computed by the harness's own interval arithmetic: same start with the documented form (out==in, dst=in[:0]) or disjoint => no panic and the separate-buffer result; any other overlap => panic or the separate-buffer result (an authentication error from an Open-type function is recorded as failed-closed), never a wrong result without panic; no byte outside the output window may change. distinct = (function, path, length, expectation class, variation)")
 	m.Assume("reference = the same function on separate heap buffers, cross-checked where an independent oracle exists (RFC 8439 spec for chacha20/AEAD, libsodium " + sodiumaead.Version() + " for salsa20, secretbox, box, sign); xts has no independent oracle here (C13's concern)")
-	m.Assume("box.SealAnonymous forbids any overlap but neither it nor its documentation promises a check: its forbidden-overlap outcomes are counted (sealanonymous_forbidden_overlap_silent_wrong), not judged")
+	m.Assume("an Open-type function that returns its authentication error (no plaintext) for a forbidden overlap has failed closed: recorded (forbidden_overlap_failed_closed), not a violation — observed for the asm AEAD Open when dst overlaps only the tag bytes of the ciphertext")
 
 	fns := c53Functions()
 	// unit list: (function, length) for the in/out enumeration, then (AEAD function, length) for the ad enumeration
@@ -369,10 +368,11 @@ func TestC53(t *testing.T) {
 		if i < 2 {
 			m.Sample(map[string]any{"function": label, "n": u.n, "in": mon.Hex(inst.in), "reference_out": mon.Hex(inst.want), "offsets": "-64..+64"})
 		}
+		template := mon.Bytes(r, len(arena))
 		// one presentation: out window at wStart with (prefix p, spare s, short, extra), ad at adStart (or heap copy)
 		present := func(off int, p, s int, short bool, extra int, adStart int, variation string) {
-			// fill arena with fresh canary bytes, then the input (and ad)
-			copy(arena, mon.Bytes(r, len(arena)))
+			// fill arena with canary bytes, then the input (and ad)
+			copy(arena, template)
 			in := arena[c53B : c53B+inLen : c53B+inLen]
 			copy(in, inst.in)
 			wStart := c53B + off
@@ -403,7 +403,7 @@ func TestC53(t *testing.T) {
 			// expectation class from the documentation
 			class := "disjoint"
 			inOv := overlap(wStart-p, capEnd, c53B, c53B+inLen)
-			adOv := u.ad && overlap(wStart, wStart+outLen, adStart, adStart+adLen)
+			adOv := u.ad && overlap(wStart-p, capEnd, adStart, adStart+adLen) // cipher.AEAD: dst and additionalData may not overlap
 			switch {
 			case adOv:
 				class = "forbidden-ad"
@@ -432,7 +432,7 @@ func TestC53(t *testing.T) {
 			wit := func() map[string]any {
 				return map[string]any{"function": label, "n": u.n, "class": class, "variation": variation,
 					"in_at": c53B, "in_len": inLen, "window_at": wStart, "window_len": outLen, "dst_prefix": p, "dst_cap_end": capEnd,
-					"ad_at": adStart, "ad_len": adLen, "offset": off, "in": mon.FullHex(inst.in), "reference": mon.FullHex(inst.want)}
+					"ad_at": adStart, "ad_len": adLen, "offset_out_minus_in": wStart - c53B, "in": mon.FullHex(inst.in), "reference": mon.FullHex(inst.want)}
 			}
 			if fault != nil {
 				w := wit()
@@ -467,8 +467,6 @@ func TestC53(t *testing.T) {
 					w := wit()
 					w["ok"], w["got"] = ok, mon.FullHex(ret)
 					m.Violation("wrong-result:"+label+":"+class, w)
-				case f.doc == docNoneObserved:
-					m.Count("sealanonymous_forbidden_overlap_silent_wrong", 1)
 				case f.opener && !ok:
 					m.Count("forbidden_overlap_failed_closed", 1)
 					m.Count("forbidden_overlap_failed_closed:"+label, 1)
@@ -480,12 +478,14 @@ func TestC53(t *testing.T) {
 			}
 			// nothing outside the output window may change (inputs included, unless they lie in the window)
 			w0, w1 := wStart, wStart+outLen
-			for k := range arena {
-				if (k < w0 || k >= w1) && arena[k] != snap[k] {
-					w := wit()
-					w["first_changed_at"], w["was"], w["now"] = k, snap[k], arena[k]
-					m.Violation("wrote-outside-window:"+label, w)
-					break
+			if !bytes.Equal(arena[:w0], snap[:w0]) || !bytes.Equal(arena[w1:], snap[w1:]) {
+				for k := range arena {
+					if (k < w0 || k >= w1) && arena[k] != snap[k] {
+						w := wit()
+						w["first_changed_at"], w["was"], w["now"] = k, snap[k], arena[k]
+						m.Violation("wrote-outside-window:"+label, w)
+						break
+					}
 				}
 			}
 		}
@@ -521,6 +521,5 @@ func TestC53(t *testing.T) {
 	}
 	m.Gate("exact_calls", 2*(5*len(c53Lens)+2*len(c53XTSLens)), "exactly overlapping calls over all functions, both builds")
 	m.Gate("forbidden_calls", 2*20*len(c53Lens)*128, "inexactly overlapping calls over all functions, both builds")
-	m.Gate("panic_on_forbidden_overlap", 2*20*len(c53Lens)*64, "documented-overlap panics observed")
 	m.SetExhaustive(true)
 }
